@@ -8,18 +8,20 @@ from mc.core import Result, SubCheck
 
 PROPERTY = "C02"
 ASSUMPTIONS = [
-    "finite lattice alphabet of streams (K=3/4), <=3 zones with flat and nested labels, 4-7 utility sets (none, isothermal, glide, two-level ladders, inside-range only, 'Both')",
+    "finite lattice alphabet of streams (K=3/4), <=3 zones with flat and nested labels, 6-11 utility sets (none, isothermal, glide, two-level ladders, inside-range only, 'Both', levels closer to the range ends than their own contribution)",
     "zone membership reference: a stream belongs to every zone whose path is a prefix of its label",
     "total-site records list utilities after generation/use matching, so only the net difference of their sums is tied to the stream duties",
 ]
 
 
 def cases(tier, inst):
-    usets = P.utility_sets(inst, 3, "small" if tier == "quick" else "large")
+    usets = P.utility_sets(inst, 3, "large")
     if tier == "quick":
         for ms in P.stream_multisets(inst, 3, 2):
-            for labels in P.label_schemes(len(ms), 2):
-                for ui in range(len(usets)):
+            for li, labels in enumerate(P.label_schemes(len(ms), 2)):
+                for ui in (0, 1, 2, 3, 8, 9):
+                    if li > 0 and ui in (2, 8, 9):
+                        continue        # the glide pair and the near-the-end levels only with the single-zone labelling
                     yield {"streams": ms, "zones": labels, "uset": ui}
         for ms in P.stream_multisets(inst, 3, 3, cps=(1,), dts=(1,), min_n=3):
             for labels in P.label_schemes(3, 3, nested=False):
@@ -32,7 +34,7 @@ def cases(tier, inst):
                     yield {"streams": ms, "zones": labels, "uset": ui}
         for ms in P.stream_multisets(inst, 3, 3, cps=(1, 2), dts=(1,), min_n=3):
             for labels in P.label_schemes(3, 3):
-                for ui in (0, 1, 3, 5):
+                for ui in (0, 1, 3, 5, 8, 9, 10):
                     yield {"streams": ms, "zones": labels, "uset": ui}
 
 
@@ -65,6 +67,8 @@ def run(case, res: Result):
             kinds.add(kind)
         detail = {"record": key, "zone": "/".join(path), "Qh": Qh, "Qc": Qc, "Qr": Qr, "hot_duty": hot, "cold_duty": cold}
         tag = f"{kind}:u{case['uset']}"
+        if S.cold_default_decision_sign_defect(prob):
+            tag = f"{kind}:cold-default-decision-sign"
         if abs((Qh - Qc) - (cold - hot)) > eps:
             res.violate("net_balance", case, detail, "net_balance:" + tag)
         if abs(Qr - (hot - Qc)) > eps:
@@ -76,7 +80,7 @@ def run(case, res: Result):
         if abs((hu - cu) - (cold - hot)) > eps:
             detail2 = dict(detail, hot_utilities=[(u.name, S.num(u.heat_flow)) for u in r.hot_utilities],
                            cold_utilities=[(u.name, S.num(u.heat_flow)) for u in r.cold_utilities])
-            res.violate("utility_net", case, detail2, "utility_net:" + tag + _extreme_latent(prob, idxs))
+            res.violate("utility_net", case, detail2, "utility_net:" + tag + ("" if tag.endswith("decision-sign") else _extreme_latent(prob, idxs)))
     res.add_case(case, len(kinds) >= 2, outcome=outcome)
 
 
